@@ -1,4 +1,5 @@
 import SieveModel.Lemmas.ClientRead
+import SieveModel.Lemmas.ClientState
 /-!
 # Whole sessions (T-SESSION)
 
@@ -91,5 +92,199 @@ theorem connect_then_session_congr (c : Client) (env : ConnEnv) (n1 n2 : Net) (h
       (runOps (connect c env n2 login password authz false mech).2 ops).1 := by
   obtain ⟨hv, hc⟩ := connect_plain_congr c env n1 n2 hs hl login password authz mech
   exact ⟨hv, (runOps_congr ops _ _ hc).1⟩
+
+/-! ## what a session cannot change -/
+
+theorem guarded_keeps {α : Type} (c : Client) (f : Client → Res α) (h : Keeps c (f c).2) : Keeps c (guarded c f).2 := by
+  unfold guarded
+  split
+  · exact h
+  · exact Keeps.refl c
+
+theorem okOf_keeps (c : Client) (x : Res Reply) (h : Keeps c x.2) : Keeps c (okOf x).2 := by
+  rw [okOf_snd]; exact h
+
+theorem havespace_keeps (c : Client) (n : Bytes) (k : Nat) : Keeps c (havespace c n k).2 :=
+  guarded_keeps c _ (okOf_keeps c _ (sendCommand_keeps c _ _ _ _))
+theorem putscript_keeps (c : Client) (n b : Bytes) : Keeps c (putscript c n b).2 :=
+  guarded_keeps c _ (okOf_keeps c _ (sendCommand_keeps c _ _ _ _))
+theorem deletescript_keeps (c : Client) (n : Bytes) : Keeps c (deletescript c n).2 :=
+  guarded_keeps c _ (okOf_keeps c _ (sendCommand_keeps c _ _ _ _))
+theorem setactive_keeps (c : Client) (n : Bytes) : Keeps c (setactive c n).2 :=
+  guarded_keeps c _ (okOf_keeps c _ (sendCommand_keeps c _ _ _ _))
+
+theorem checkscript_keeps (c : Client) (b : Bytes) : Keeps c (checkscript c b).2 := by
+  refine guarded_keeps c _ ?_
+  show Keeps c (if !capHas c (sb "VERSION") then ((.error (.crash "NotImplementedError") : Except RErr Bool), c)
+      else okOf (sendCommand c (sb "CHECKSCRIPT") [.lit b])).2
+  split
+  · exact Keeps.refl c
+  · exact okOf_keeps c _ (sendCommand_keeps c _ _ _ _)
+
+theorem listscripts_keeps (c : Client) : Keeps c (listscripts c).2 := by
+  refine guarded_keeps c _ ?_
+  have h := sendCommand_keeps c (sb "LISTSCRIPTS") [] [] none
+  revert h
+  generalize sendCommand c (sb "LISTSCRIPTS") [] [] none = x
+  intro h
+  obtain ⟨v, c1⟩ := x
+  cases v with
+  | error e => exact h
+  | ok rep =>
+    simp only
+    split
+    · exact h
+    · split <;> exact h
+
+theorem getscript_keeps (c : Client) (n : Bytes) : Keeps c (getscript c n).2 := by
+  refine guarded_keeps c _ ?_
+  have h := sendCommand_keeps c (sb "GETSCRIPT") [.str n] [] none
+  revert h
+  generalize sendCommand c (sb "GETSCRIPT") [.str n] [] none = x
+  intro h
+  obtain ⟨v, c1⟩ := x
+  cases v with
+  | error e => exact h
+  | ok rep =>
+    simp only
+    split
+    · split <;> exact h
+    · exact h
+
+theorem capability_keeps (c : Client) : Keeps c (capability c).2 := by
+  have h := sendCommand_keeps c (sb "CAPABILITY") [] [] none
+  unfold capability
+  revert h
+  generalize sendCommand c (sb "CAPABILITY") [] [] none = x
+  intro h
+  obtain ⟨v, c1⟩ := x
+  cases v <;> exact h
+
+theorem logout_keeps (c : Client) : Keeps c (logout c).2 := by
+  have h := sendCommand_keeps c (sb "LOGOUT") [] [] none
+  unfold logout
+  revert h
+  generalize sendCommand c (sb "LOGOUT") [] [] none = x
+  intro h
+  obtain ⟨v, c1⟩ := x
+  cases v <;> exact h
+
+theorem emulatedRename_keeps (c : Client) (old new : Bytes) : Keeps c (emulatedRename c old new).2 := by
+  unfold emulatedRename
+  have h1 := listscripts_keeps c
+  revert h1
+  generalize listscripts c = x1
+  intro h1
+  obtain ⟨v1, c1⟩ := x1
+  cases v1 with
+  | error e => exact h1
+  | ok lst =>
+    cases lst with
+    | none => exact h1
+    | some p =>
+      obtain ⟨active, scripts⟩ := p
+      simp only
+      split
+      · exact h1.trans (setErrmsg_keeps c1 _)
+      · split
+        · exact h1.trans (setErrmsg_keeps c1 _)
+        · have h2 := getscript_keeps c1 old
+          revert h2
+          generalize getscript c1 old = x2
+          intro h2
+          obtain ⟨v2, c2⟩ := x2
+          cases v2 with
+          | error e => exact h1.trans h2
+          | ok ob =>
+            cases ob with
+            | none => exact h1.trans h2
+            | some body =>
+              simp only
+              have h3 := putscript_keeps c2 new body
+              revert h3
+              generalize putscript c2 new body = x3
+              intro h3
+              obtain ⟨v3, c3⟩ := x3
+              cases v3 with
+              | error e => exact (h1.trans h2).trans h3
+              | ok okb =>
+                cases okb with
+                | false => exact (h1.trans h2).trans h3
+                | true =>
+                  simp only [activateIfNeeded]
+                  by_cases hact : active == some old
+                  · simp only [hact, if_true]
+                    have h4 := setactive_keeps c3 new
+                    revert h4
+                    generalize setactive c3 new = x4
+                    intro h4
+                    obtain ⟨v4, c4⟩ := x4
+                    cases v4 with
+                    | error e => exact ((h1.trans h2).trans h3).trans h4
+                    | ok ab =>
+                      cases ab with
+                      | false => exact ((h1.trans h2).trans h3).trans h4
+                      | true => exact (((h1.trans h2).trans h3).trans h4).trans (deletescript_keeps c4 old)
+                  · simp only [hact, Bool.false_eq_true, if_false]
+                    exact ((h1.trans h2).trans h3).trans (deletescript_keeps c3 old)
+
+theorem renamescript_keeps (c : Client) (old new : Bytes) : Keeps c (renamescript c old new).2 := by
+  refine guarded_keeps c _ ?_
+  show Keeps c (if capHas c (sb "VERSION") then okOf (sendCommand c (sb "RENAMESCRIPT") [.str old, .str new])
+      else emulatedRename c old new).2
+  split
+  · exact okOf_keeps c _ (sendCommand_keeps c _ _ _ _)
+  · exact emulatedRename_keeps c old new
+
+theorem mapRes_snd {α : Type} (f : α → OpVal) (x : Res α) : (mapRes f x).2 = x.2 := rfl
+
+theorem runOp_keeps (c : Client) (op : Op) : Keeps c (runOp c op).2 := by
+  cases op with
+  | havespace n k => exact havespace_keeps c n k
+  | putscript n b => exact putscript_keeps c n b
+  | deletescript n => exact deletescript_keeps c n
+  | setactive n => exact setactive_keeps c n
+  | checkscript b => exact checkscript_keeps c b
+  | listscripts => exact listscripts_keeps c
+  | getscript n => exact getscript_keeps c n
+  | renamescript o n => exact renamescript_keeps c o n
+  | capability => exact capability_keeps c
+  | logout => exact logout_keeps c
+
+/-- **no operation of a session changes who the client is**: authenticated, TLS and connected flags are what they
+    were, and everything written went out on the channel the session started on -/
+theorem runOps_keeps (ops : List Op) (c : Client) : Keeps c (runOps c ops).2 := by
+  induction ops generalizing c with
+  | nil => exact Keeps.refl c
+  | cons op rest ih => exact (runOp_keeps c op).trans (ih _)
+
+/-- the operations that act on scripts (everything but CAPABILITY and LOGOUT) -/
+def Op.onScripts : Op → Bool
+  | .capability => false
+  | .logout => false
+  | _ => true
+
+theorem runOp_unauthenticated (c : Client) (op : Op) (h : c.authenticated = false) (hs : op.onScripts = true) :
+    runOp c op = (.error .error, c) := by
+  cases op <;> simp [Op.onScripts] at hs <;>
+    simp [runOp, mapRes, havespace, putscript, deletescript, setactive, checkscript, listscripts, getscript, renamescript, guarded, h]
+
+/-- **an unauthenticated client sends no script command, whatever is tried and however often**: every script
+    operation of the session raises Error and the client — its write log included — is exactly what it was -/
+theorem unauthenticated_session (ops : List Op) (c : Client) (h : c.authenticated = false)
+    (hs : ∀ op ∈ ops, op.onScripts = true) :
+    (runOps c ops).2 = c ∧ ∀ r ∈ (runOps c ops).1, r = .error .error := by
+  induction ops with
+  | nil => exact ⟨rfl, fun r hr => by simp [runOps] at hr⟩
+  | cons op rest ih =>
+    have h1 := runOp_unauthenticated c op h (hs op (by simp))
+    obtain ⟨ih1, ih2⟩ := ih (fun o ho => hs o (by simp [ho]))
+    simp only [runOps, h1]
+    refine ⟨ih1, ?_⟩
+    intro r hr
+    simp only [List.mem_cons] at hr
+    rcases hr with rfl | hr
+    · rfl
+    · exact ih2 r hr
 
 end Client
